@@ -168,23 +168,36 @@ theorem c02_emit_prefix (cfg : Cfg) (hp : Plain cfg) (k : Kind) (cs : Calls) (f 
   simp only [e2, e3, hfr, hout]
   simp [pending, plainFrame, entryRec]
 
-/-- Calls deeper than --max-stack are dropped, never corrupted (-pg / -mfentry /
-    patched entries): for every forest of any depth, the written stream is
+/-- Calls deeper than --max-stack are dropped, never corrupted, for both hook
+    flavours (-pg / -mfentry / patched entries, where the overflowing call is not
+    hijacked at all, and -finstrument-functions, where the hooks keep counting
+    beyond the array): for every forest of any depth, the written stream is
     exactly the eager trace of the forest cut at `maxStack` open calls
     (`evCallsB`): every call at depth < maxStack appears with its true depth,
     address and time stamps, in order, and nothing else does — including all
     calls made after the overflow. -/
-theorem c02_overflow_drop (cfg : Cfg) (hp : Plain cfg) (hdo : cfg.maxStack ≤ cfg.depthOpt) (cs : Calls)
+theorem c02_overflow_drop (cfg : Cfg) (hp : Plain cfg) (k : Kind) (hdo : cfg.maxStack ≤ cfg.depthOpt) (cs : Calls)
     (ht : cs.timed) (hmin : cfg.minSize = 0) (hen : cfg.enabled0 = true) :
-    (runCalls cfg .pg (St.init cfg) cs).out = evCallsB 0 cfg.maxStack cs := by
+    (runCalls cfg k (St.init cfg) cs).out = evCallsB 0 cfg.maxStack cs := by
   have hg : GoodW (St.init cfg) 0 := by
     refine ⟨?_, trivial, fun _ => rfl, fun f hf => by simp [St.init] at hf⟩
     constructor <;> simp [St.init, hmin, hen, NoSkip]
-  obtain ⟨h1, h2, _⟩ := over_calls cfg hp hdo cs (St.init cfg) 0 hg (Nat.zero_le _) ht
-  have hfr : (runCalls cfg .pg (St.init cfg) cs).frames = [] := by
+  obtain ⟨h1, h2, _⟩ := over_calls cfg hp k hdo cs (St.init cfg) 0 hg (Nat.zero_le _) ht
+  have hfr : (runCalls cfg k (St.init cfg) cs).frames = [] := by
     simpa [St.init] using h2
   simp only [eager, hfr, pending, List.append_nil] at h1
   rw [h1]; simp [St.init, pending]
+
+/-- the -finstrument-functions hooks leave their counter balanced after an overflow:
+    the state after the forest has no frame and no pending overflow count -/
+theorem c02_overflow_cyg_balanced (cfg : Cfg) (hp : Plain cfg) (hdo : cfg.maxStack ≤ cfg.depthOpt) (cs : Calls)
+    (ht : cs.timed) (hmin : cfg.minSize = 0) (hen : cfg.enabled0 = true) :
+    (runCalls cfg .cyg (St.init cfg) cs).frames = [] ∧ (runCalls cfg .cyg (St.init cfg) cs).over = 0 := by
+  have hg : GoodW (St.init cfg) 0 := by
+    refine ⟨?_, trivial, fun _ => rfl, fun f hf => by simp [St.init] at hf⟩
+    constructor <;> simp [St.init, hmin, hen, NoSkip]
+  obtain ⟨_, h2, h3⟩ := over_calls cfg hp .cyg hdo cs (St.init cfg) 0 hg (Nat.zero_le _) ht
+  exact ⟨by simpa [St.init] using h2, h3.good.over⟩
 
 /-- non-vacuity of `c02_overflow_drop`: recursion three deep with --max-stack 2 keeps
     exactly the two outer levels -/
@@ -266,10 +279,10 @@ theorem c02_prefix_nested (cfg : Cfg) (hp : Plain cfg) (k : Kind) (cs : Calls) (
 
 /-- also beyond --max-stack (deeper calls dropped): the written stream is still
     well nested with true depths -/
-theorem c02_overflow_stream_well_nested (cfg : Cfg) (hp : Plain cfg) (hdo : cfg.maxStack ≤ cfg.depthOpt)
+theorem c02_overflow_stream_well_nested (cfg : Cfg) (hp : Plain cfg) (k : Kind) (hdo : cfg.maxStack ≤ cfg.depthOpt)
     (cs : Calls) (ht : cs.timed) (hmin : cfg.minSize = 0) (hen : cfg.enabled0 = true) :
-    WellNested (runCalls cfg .pg (St.init cfg) cs).out := by
-  rw [c02_overflow_drop cfg hp hdo cs ht hmin hen]
+    WellNested (runCalls cfg k (St.init cfg) cs).out := by
+  rw [c02_overflow_drop cfg hp k hdo cs ht hmin hen]
   exact nest_evCallsB cs [] cfg.maxStack
 
 /-- non-vacuity: a clocked, timed recursive forest -/
